@@ -176,88 +176,136 @@ Proof.
   rewrite A. destruct st; reflexivity.
 Qed.
 
-Lemma exec_count_update (brs : list branch) (ev : event) (agg : string) (s : state) (a : Z) :
-  fget agg s = Some ("int", VInt a) ->
-  exec_stmt brs ev (count_update agg) s = ROk (upd agg (VInt (a + 1)) s).
+(* results of arith are numbers, booleans or symbolic values - never an uninitialised cell *)
+Definition arithable (v : value) : Prop := is_sym v = true \/ exists nq, num_of v = Some nq.
+
+Lemma arith_arithable (op : string) (x y v : value) : arith op x y = ROk v -> arithable v.
 Proof.
-  intro H. unfold count_update. rewrite exec_set.
-  change (eval ev s (CBin "+" (CVar agg) (CInt 1)))
-    with (rbind (eval ev s (CVar agg)) (fun x => rbind (eval ev s (CInt 1)) (fun y => arith "+" x y))).
-  rewrite eval_var. rewrite (lookup_fget _ _ _ H). cbn [rbind eval].
-  destruct (assign_upd agg (VInt (a + 1)) s "int" (VInt a) H) as (Ha & _).
-  cbn. rewrite Ha. reflexivity.
+  unfold arith. destruct (is_sym x || is_sym y) eqn:S.
+  - intro H. inversion H; subst. left. reflexivity.
+  - destruct (num_of x) as [[px|px]|]; destruct (num_of y) as [[qy|qy]|]; try discriminate;
+      repeat match goal with
+             | |- (if ?c then _ else _) = ROk v -> _ => destruct c
+             end; intro H; try discriminate; inversion H; subst; right; cbn; eauto.
 Qed.
 
-Lemma nest_count (brs : list branch) (ev : event) (iv : string) (ar : bool) (agg t : string) (v : value) (ps : list pred) :
-  forall (s : state) (a : Z),
+Lemma conv_arithable (t : string) (v : value) : arithable v -> arithable (conv t v).
+Proof.
+  intros [S|[nq N]]; unfold conv;
+    destruct (String.eqb t "int"); try destruct (String.eqb t "double" || String.eqb t "float"); try destruct (String.eqb t "bool");
+    destruct v; try discriminate; try (left; reflexivity); right; cbn; eauto.
+Qed.
+
+Lemma arithable_not_uninit (v : value) : arithable v -> v <> VUninit.
+Proof. intros [S|[nq N]] E; subst; discriminate. Qed.
+
+Lemma agg_step_ok (ev : event) (ty : string) (g : aggk) (acc v a' : value) :
+  agg_step ev ty g acc v = ROk a' -> arithable a'.
+Proof.
+  unfold agg_step. destruct (match g with ACount => ROk (VInt 1) | ASum body => dpa ev v body end); cbn [rbind]; try discriminate.
+  destruct (arith "+" acc a) eqn:E; cbn [rbind]; try discriminate. intro H. inversion H; subst.
+  apply conv_arithable. eapply arith_arithable. exact E.
+Qed.
+
+Lemma exec_agg_update (brs : list branch) (ev : event) (iv : string) (ar : bool) (agg ty t : string) (g : aggk)
+      (s : state) (acc v : value) :
+  fget agg s = Some (ty, acc) -> acc <> VUninit -> lookup iv s = Some (t, v) ->
+  nstuck (agg_step ev ty g acc v) ->
+  exec_stmt brs ev (agg_update agg (agg_summand iv ar g)) s =
+  match agg_step ev ty g acc v with
+  | ROk a' => ROk (upd agg a' s)
+  | RFault f => RFault f
+  | RStuck k => RStuck k
+  end.
+Proof.
+  intros H Hu Hl Hn. unfold agg_update. rewrite exec_set.
+  change (eval ev s (CBin "+" (CVar agg) (agg_summand iv ar g)))
+    with (rbind (eval ev s (CVar agg)) (fun x => rbind (eval ev s (agg_summand iv ar g)) (fun y => arith "+" x y))).
+  rewrite eval_var. rewrite (lookup_fget _ _ _ H).
+  assert (Ea : (match acc with VUninit => RStuck (KUninit agg) | _ => ROk acc end) = ROk acc) by (destruct acc; try reflexivity; contradiction).
+  rewrite Ea. cbn [rbind]. unfold agg_step in *.
+  assert (Es : eval ev s (agg_summand iv ar g) = match g with ACount => ROk (VInt 1) | ASum body => dpa ev v body end).
+  { destruct g as [|body]; cbn [agg_summand]; [reflexivity|].
+    apply (eval_tpa ev s iv ar t v body Hl). exact (nstuck_bind_l _ _ Hn). }
+  rewrite Es. destruct (match g with ACount => ROk (VInt 1) | ASum body => dpa ev v body end) as [x|f|k]; cbn [rbind] in *; try reflexivity.
+  destruct (arith "+" acc x) as [sm|f|k]; cbn [rbind] in *; try reflexivity.
+  destruct (assign_upd agg (conv ty sm) s ty acc H) as (Ha & _). rewrite Ha. reflexivity.
+Qed.
+
+Lemma nest_agg (brs : list branch) (ev : event) (iv : string) (ar : bool) (agg ty t : string) (g : aggk) (v : value) (ps : list pred) :
+  forall (s : state) (acc : value),
   lookup iv s = Some (t, v) ->
-  fget agg s = Some ("int", VInt a) ->
-  nstuck (passes ev v ps) ->
-  nest_run ev (exec_stmt brs ev (count_update agg)) (map (tpred iv ar) ps) s =
+  fget agg s = Some (ty, acc) -> acc <> VUninit ->
+  nstuck (rbind (passes ev v ps) (fun b => if b then agg_step ev ty g acc v else ROk acc)) ->
+  nest_run ev (exec_stmt brs ev (agg_update agg (agg_summand iv ar g))) (map (tpred iv ar) ps) s =
   match passes ev v ps with
-  | ROk true => ROk (upd agg (VInt (a + 1)) s)
+  | ROk true => match agg_step ev ty g acc v with ROk a' => ROk (upd agg a' s) | RFault f => RFault f | RStuck k => RStuck k end
   | ROk false => ROk s
   | RFault f => RFault f
   | RStuck k => RStuck k
   end.
 Proof.
-  induction ps as [|p r IH]; intros s a Hl Hg Hn; cbn [map nest_run passes].
-  - apply exec_count_update, Hg.
-  - cbn [passes] in Hn. rewrite dpred_dpredv in *.
-    pose proof (nstuck_bind_l _ _ (nstuck_bind_l _ _ Hn)) as Hv.
+  induction ps as [|p r IH]; intros s acc Hl Hg Hu Hn; cbn [map nest_run passes] in *.
+  - cbn [rbind] in Hn. apply (exec_agg_update brs ev iv ar agg ty t g s acc v Hg Hu Hl Hn).
+  - rewrite dpred_dpredv in *.
+    pose proof (nstuck_bind_l _ _ (nstuck_bind_l _ _ (nstuck_bind_l _ _ Hn))) as Hv.
     rewrite (eval_tpred ev s iv ar t v p Hl Hv).
     destruct (dpredv ev v p) as [w|f|k]; cbn [rbind] in *; [|reflexivity|destruct Hv].
     destruct (truth w) as [b|f|k]; cbn [rbind] in *; [|reflexivity|destruct Hn].
     destruct b; [|reflexivity].
-    rewrite (IH (enter [] s) a); [| exact Hl | rewrite fget_enter; [exact Hg|reflexivity] | exact Hn].
-    destruct (passes ev v r) as [[|]|f|k]; cbn [rbind]; try reflexivity.
-    + rewrite (upd_enter agg _ [] s "int" (VInt a)); [|reflexivity|exact Hg]. rewrite pop_enter. reflexivity.
+    rewrite (IH (enter [] s) acc); [| exact Hl | rewrite fget_enter; [exact Hg|reflexivity] | exact Hu | exact Hn].
+    destruct (passes ev v r) as [[|]|f|k]; cbn [rbind] in *; try reflexivity.
+    + destruct (agg_step ev ty g acc v) as [a'|f|k]; cbn [rbind]; try reflexivity.
+      rewrite (upd_enter agg _ [] s ty acc); [|reflexivity|exact Hg]. rewrite pop_enter. reflexivity.
     + rewrite pop_enter. reflexivity.
 Qed.
 
-Lemma loop_count (brs : list branch) (ev : event) (iv : string) (ar : bool) (agg : string) (ps : list pred) (l : list value) :
-  forall (st : state) (a : Z),
-  fget agg st = Some ("int", VInt a) -> String.eqb agg iv = false ->
-  nstuck (count_loop ev ps l a) ->
-  for_loop brs ev iv (Blk [] (one_stmt (fi_guards (map (tpred iv ar) ps) (count_update agg)))) l st =
-  match count_loop ev ps l a with
-  | ROk z => ROk (upd agg (VInt z) st)
+Lemma loop_agg (brs : list branch) (ev : event) (iv : string) (ar : bool) (agg ty : string) (g : aggk) (ps : list pred) (l : list value) :
+  forall (st : state) (acc : value),
+  fget agg st = Some (ty, acc) -> acc <> VUninit -> String.eqb agg iv = false ->
+  nstuck (agg_loop ev ty g ps l acc) ->
+  for_loop brs ev iv (Blk [] (one_stmt (fi_guards (map (tpred iv ar) ps) (agg_update agg (agg_summand iv ar g))))) l st =
+  match agg_loop ev ty g ps l acc with
+  | ROk z => ROk (upd agg z st)
   | RFault f => RFault f
   | RStuck k => RStuck k
   end.
 Proof.
-  induction l as [|v r IH]; intros st a Hg Hne Hn.
-  - cbn [count_loop]. rewrite for_loop_nil. rewrite (upd_same agg (VInt a) st "int" Hg). reflexivity.
-  - cbn [count_loop] in *. rewrite for_loop_cons, exec_block_eq. cbn [run_decls rbind].
+  induction l as [|v r IH]; intros st acc Hg Hu Hne Hn.
+  - cbn [agg_loop]. rewrite for_loop_nil. rewrite (upd_same agg acc st ty Hg). reflexivity.
+  - cbn [agg_loop] in *. rewrite for_loop_cons, exec_block_eq. cbn [run_decls rbind].
     rewrite exec_one, guards_exec.
     assert (Hl : lookup iv (enter [(iv, ("auto", v))] st) = Some ("auto", v)).
     { unfold lookup, enter. cbn. rewrite String.eqb_refl. reflexivity. }
-    assert (Hg' : fget agg (enter [(iv, ("auto", v))] st) = Some ("int", VInt a)).
+    assert (Hg' : fget agg (enter [(iv, ("auto", v))] st) = Some (ty, acc)).
     { rewrite fget_enter; [exact Hg|]. cbn. rewrite Hne. reflexivity. }
-    rewrite (nest_count brs ev iv ar agg "auto" v ps _ a Hl Hg' (nstuck_bind_l _ _ Hn)).
+    assert (Hn' : nstuck (rbind (passes ev v ps) (fun b => if b then agg_step ev ty g acc v else ROk acc))).
+    { destruct (passes ev v ps) as [[|]|f|k]; cbn [rbind] in *; [exact (nstuck_bind_l _ _ Hn)|exact I|exact I|exact Hn]. }
+    rewrite (nest_agg brs ev iv ar agg ty "auto" g v ps _ acc Hl Hg' Hu Hn').
     destruct (passes ev v ps) as [b|f|k]; cbn [rbind] in *; [|reflexivity|destruct Hn].
     destruct b; cbn [rbind].
-    + rewrite (upd_enter agg _ _ st "int" (VInt a)); [|cbn; rewrite Hne; reflexivity|exact Hg].
+    + destruct (agg_step ev ty g acc v) as [a'|f|k] eqn:Es; cbn [rbind] in *; [|reflexivity|destruct Hn].
+      rewrite (upd_enter agg _ _ st ty acc); [|cbn; rewrite Hne; reflexivity|exact Hg].
       rewrite pop_enter.
-      destruct (assign_upd agg (VInt (a + 1)) st "int" (VInt a) Hg) as (_ & _ & Hg1 & _).
-      rewrite (IH _ (a + 1)%Z Hg1 Hne Hn).
-      destruct (count_loop ev ps r (a + 1)) as [z|f|k]; try reflexivity.
-      rewrite (upd_upd agg _ _ st "int" (VInt a) Hg). reflexivity.
-    + rewrite pop_enter. apply (IH st a Hg Hne Hn).
+      destruct (assign_upd agg a' st ty acc Hg) as (_ & _ & Hg1 & _).
+      rewrite (IH _ a' Hg1 (arithable_not_uninit _ (agg_step_ok _ _ _ _ _ _ Es)) Hne Hn).
+      destruct (agg_loop ev ty g ps r a') as [z|f|k]; try reflexivity.
+      rewrite (upd_upd agg _ _ st ty acc Hg). reflexivity.
+    + rewrite pop_enter. apply (IH st acc Hg Hu Hne Hn).
 Qed.
 
-(* the two statements of one Count, run in a state in which its two variables are declared *)
+(* the two statements of one aggregate, run in a state in which its two variables are declared *)
 Lemma count_exec (brs : list branch) (ev : event) (idiom : string) (k : cnt) (n : nat) (st : state) (tcv : string) (v0 : value) :
   fget (cv_name k n) st = Some (tcv, v0) ->
-  fget (agg_name n) st = Some ("int", VInt 0) ->
+  fget (agg_name n) st = Some (agg_type k, conv (agg_type k) (VInt 0)) ->
   String.eqb (agg_name n) (cv_name k n) = false ->
   String.eqb (agg_name n) (iv_name n) = false ->
   match assoc_ss (c_ctype (k_coll k), c_bank (k_coll k)) (ev_colls ev) with
   | None => exec_stmts brs ev (tcount_stmts idiom k n) st = RFault FRetrieve
   | Some (VVec l) =>
-      match count_loop ev (k_preds k) l 0 with
+      match agg_loop ev (agg_type k) (k_agg k) (k_preds k) l (conv (agg_type k) (VInt 0)) with
       | ROk z => exec_stmts brs ev (tcount_stmts idiom k n) st =
-                 ROk (upd (agg_name n) (VInt z) (upd (cv_name k n) (VVec l) st))
+                 ROk (upd (agg_name n) z (upd (cv_name k n) (VVec l) st))
       | RFault f => exec_stmts brs ev (tcount_stmts idiom k n) st = RFault f
       | RStuck _ => True
       end
@@ -274,12 +322,14 @@ Proof.
     with (rbind (eval ev (upd (cv_name k n) c st) (CVar (cv_name k n)))
                 (fun x => match x with VNull => RFault FNullDeref | _ => ROk x end)).
   rewrite eval_var, (lookup_fget _ _ _ Hcv1).
-  assert (Hagg1 : fget (agg_name n) (upd (cv_name k n) c st) = Some ("int", VInt 0)).
+  assert (Hagg1 : fget (agg_name n) (upd (cv_name k n) c st) = Some (agg_type k, conv (agg_type k) (VInt 0))).
   { rewrite (Hoth _ Hne1). exact Hagg. }
+  assert (Hu : conv (agg_type k) (VInt 0) <> VUninit).
+  { apply arithable_not_uninit, conv_arithable. right. cbn. eauto. }
   destruct c; cbn [rbind]; try exact I; try reflexivity.
-  destruct (count_loop ev (k_preds k) l 0) as [z|f|kk] eqn:Ec; [| |exact I].
-  - rewrite (loop_count brs ev _ _ _ _ l _ 0%Z Hagg1 Hne2); rewrite Ec; [reflexivity|exact I].
-  - rewrite (loop_count brs ev _ _ _ _ l _ 0%Z Hagg1 Hne2); rewrite Ec; [reflexivity|exact I].
+  destruct (agg_loop ev (agg_type k) (k_agg k) (k_preds k) l (conv (agg_type k) (VInt 0))) as [z|f|kk] eqn:Ec; [| |exact I].
+  - rewrite (loop_agg brs ev _ _ _ _ _ _ l _ _ Hagg1 Hu Hne2); rewrite Ec; [reflexivity|exact I].
+  - rewrite (loop_agg brs ev _ _ _ _ _ _ l _ _ Hagg1 Hu Hne2); rewrite Ec; [reflexivity|exact I].
 Qed.
 
 (* ---------- names ---------- *)
@@ -363,27 +413,44 @@ Fixpoint dstm (ev : event) (e : ex) : res unit :=
   | EBin _ a b => rdo _ <- dstm ev a; dstm ev b
   end.
 
-Definition numeric (v : value) : Prop := exists nq, num_of v = Some nq.
-
-Lemma arith_total (o : bop) (x y : value) : numeric x -> numeric y -> exists v, arith (op_str o) x y = ROk v /\ numeric v.
+Lemma arith_total (o : bop) (x y : value) : arithable x -> arithable y -> exists v, arith (op_str o) x y = ROk v /\ arithable v.
 Proof.
-  intros [p Hp] [q Hq]. unfold arith.
-  assert (Sx : is_sym x = false) by (destruct x; try discriminate; reflexivity).
-  assert (Sy : is_sym y = false) by (destruct y; try discriminate; reflexivity).
-  rewrite Sx, Sy. cbn [orb]. rewrite Hp, Hq.
-  destruct p as [px|px], q as [qy|qy]; destruct o; cbn; eexists; split; try reflexivity; unfold numeric; cbn; eauto.
+  intros Hx Hy. unfold arith.
+  destruct (is_sym x || is_sym y) eqn:S.
+  - eexists. split; [reflexivity|]. left. reflexivity.
+  - apply orb_false_iff in S as [Sx Sy].
+    destruct Hx as [Hx|[p Hp]]; [congruence|]. destruct Hy as [Hy|[q Hq]]; [congruence|].
+    rewrite Hp, Hq.
+    destruct p as [px|px], q as [qy|qy]; destruct o; cbn; eexists; split; try reflexivity; right; cbn; eauto.
+Qed.
+
+Lemma agg_loop_arithable (ev : event) (ty : string) (g : aggk) (ps : list pred) (l : list value) : forall acc z,
+  arithable acc -> agg_loop ev ty g ps l acc = ROk z -> arithable z.
+Proof.
+  induction l as [|v r IH]; intros acc z Ha H; cbn [agg_loop] in H.
+  - inversion H; subst. exact Ha.
+  - destruct (passes ev v ps) as [[|]|f|k]; cbn [rbind] in H; try discriminate.
+    + destruct (agg_step ev ty g acc v) as [a'|f|k] eqn:Es; cbn [rbind] in H; try discriminate.
+      eapply IH; [|exact H]. eapply agg_step_ok. exact Es.
+    + eapply IH; eauto.
+Qed.
+
+Lemma dcount_arithable (ev : event) (k : cnt) (z : value) : dcount ev k = ROk z -> arithable z.
+Proof.
+  unfold dcount. destruct (assoc_ss _ _) as [c|]; try discriminate. destruct c; try discriminate.
+  apply agg_loop_arithable. apply conv_arithable. right. cbn. eauto.
 Qed.
 
 Lemma de_phases (ev : event) (e : ex) :
   match de ev e with
-  | ROk v => dstm ev e = ROk tt /\ numeric v
+  | ROk v => dstm ev e = ROk tt /\ arithable v
   | RFault f => dstm ev e = RFault f
   | RStuck _ => True
   end.
 Proof.
   induction e as [z|k|o a IHa b IHb]; cbn [de dstm].
-  - split; [reflexivity|]. unfold numeric; cbn; eauto.
-  - destruct (dcount ev k); cbn [rbind]; auto. split; [reflexivity|]. unfold numeric; cbn; eauto.
+  - split; [reflexivity|]. right. cbn. eauto.
+  - destruct (dcount ev k) eqn:E; cbn [rbind]; auto. split; [reflexivity|]. eapply dcount_arithable. exact E.
   - destruct (de ev a) as [x|f|kk]; cbn [rbind]; [|rewrite IHa; reflexivity|exact I].
     destruct IHa as [Ea Nx]. rewrite Ea. cbn [rbind].
     destruct (de ev b) as [y|f|kk]; cbn [rbind]; [|exact IHb|exact I].
@@ -394,7 +461,8 @@ Qed.
 Fixpoint declared (e : ex) (n : nat) (st : state) : Prop :=
   match e with
   | EInt _ => True
-  | ECount k => (exists t v, fget (cv_name k n) st = Some (t, v)) /\ fget (agg_name n) st = Some ("int", VInt 0)
+  | ECount k => (exists t v, fget (cv_name k n) st = Some (t, v)) /\
+                fget (agg_name n) st = Some (agg_type k, conv (agg_type k) (VInt 0))
   | EBin _ a b => declared a n st /\ declared b (n + size a) st
   end.
 
@@ -453,10 +521,12 @@ Proof.
     unfold dcount in *.
     destruct (assoc_ss (c_ctype (k_coll k), c_bank (k_coll k)) (ev_colls ev)) as [c|]; cbn [rbind]; [|exact C].
     destruct c; cbn [rbind]; try exact I; try exact C.
-    destruct (count_loop ev (k_preds k) l 0) as [z|f|kk]; cbn [rbind]; [|exact C|exact I].
+    destruct (agg_loop ev (agg_type k) (k_agg k) (k_preds k) l (conv (agg_type k) (VInt 0))) as [z|f|kk] eqn:El; cbn [rbind]; [|exact C|exact I].
     destruct (assign_upd (cv_name k n) (VVec l) st tcv v0 Dcv) as (_ & _ & G1 & O1 & M1 & R1).
-    assert (Dagg1 : fget (agg_name n) (upd (cv_name k n) (VVec l) st) = Some ("int", VInt 0)) by (rewrite (O1 _ N1); exact Dagg).
-    destruct (assign_upd (agg_name n) (VInt z) _ "int" (VInt 0) Dagg1) as (_ & _ & G2 & O2 & M2 & R2).
+    assert (Dagg1 : fget (agg_name n) (upd (cv_name k n) (VVec l) st) = Some (agg_type k, conv (agg_type k) (VInt 0))) by (rewrite (O1 _ N1); exact Dagg).
+    destruct (assign_upd (agg_name n) z _ (agg_type k) _ Dagg1) as (_ & _ & G2 & O2 & M2 & R2).
+    assert (Zu : z <> VUninit).
+    { apply arithable_not_uninit. eapply agg_loop_arithable; [|exact El]. apply conv_arithable. right. cbn. eauto. }
     eexists. split; [exact C|]. split; [congruence|]. split; [congruence|]. split; [|split].
     + intros y Hy.
       assert (Y1 : String.eqb y (agg_name n) = false).
@@ -468,7 +538,7 @@ Proof.
       * assert (N3 : String.eqb (cv_name k n) (agg_name n) = false) by (rewrite String.eqb_sym; exact N1).
         rewrite (O2 _ N3), G1. eauto.
       * rewrite G2. eauto.
-    + rewrite eval_var, (lookup_fget _ _ _ G2). reflexivity.
+    + rewrite eval_var, (lookup_fget _ _ _ G2). destruct z; try reflexivity. contradiction.
   - apply andb_prop in Hb as [Hba Hbb]. destruct D as [Da Db].
     specialize (IHa n st Hba Da). rewrite exec_stmts_app.
     destruct (dstm ev a) as [[]|f|kk]; cbn [rbind]; [|rewrite IHa; reflexivity|exact I].
@@ -543,7 +613,13 @@ Proof.
     destruct (declare_spec (cv_name k n) (c_ctype (k_coll k)) v0 st) as (G1 & O1 & M1 & R1); [apply Hf; left; reflexivity|].
     set (st1 := declare (cv_name k n) (c_ctype (k_coll k)) v0 st) in *.
     assert (F2 : fget (agg_name n) st1 = None) by (rewrite (O1 _ N1); apply Hf; right; left; reflexivity).
-    destruct (declare_spec (agg_name n) "int" (init_value "int" (VInt 0)) st1 F2) as (G2 & O2 & M2 & R2).
+    assert (Ei : init_value (agg_type k) (VInt 0) = conv (agg_type k) (VInt 0)).
+    { unfold init_value. destruct (is_vector_type (agg_type k)) eqn:Ev; [|reflexivity].
+      exfalso. unfold agg_type in Ev. destruct (k_agg k) as [|body]; [discriminate|].
+      clear - Ev. induction body; cbn [pa_type] in Ev; try discriminate.
+      destruct (String.eqb (pa_type body1) "int" && String.eqb (pa_type body2) "int"); discriminate. }
+    rewrite Ei.
+    destruct (declare_spec (agg_name n) (agg_type k) (conv (agg_type k) (VInt 0)) st1 F2) as (G2 & O2 & M2 & R2).
     eexists. split; [reflexivity|]. split; [split|].
     + exists (c_ctype (k_coll k)), v0.
       assert (N3 : String.eqb (cv_name k n) (agg_name n) = false) by (rewrite String.eqb_sym; exact N1).
@@ -615,13 +691,17 @@ Proof.
   - rewrite Hph in T. rewrite T. reflexivity.
 Qed.
 
-(* when every predicate evaluation succeeds, the streaming count is the length of the filtered list *)
+(* when every predicate evaluation succeeds, the streaming Count is the length of the filtered list *)
 Lemma count_is_filter_length (ev : event) (ps : list pred) (f : value -> bool) (l : list value) : forall a,
-  passes_total ev ps l f -> count_loop ev ps l a = ROk (a + Z.of_nat (List.length (filter f l)))%Z.
+  passes_total ev ps l f ->
+  agg_loop ev "int" ACount ps l (VInt a) = ROk (VInt (a + Z.of_nat (List.length (filter f l))))%Z.
 Proof.
-  induction l as [|v r IH]; intros a H; cbn [count_loop filter List.length].
-  - f_equal. lia.
+  induction l as [|v r IH]; intros a H; cbn [agg_loop filter List.length].
+  - do 2 f_equal. lia.
   - rewrite (H v (or_introl eq_refl)). cbn [rbind].
-    rewrite IH; [|intros w Hw; apply H; right; exact Hw].
-    destruct (f v); cbn [List.length]; f_equal; lia.
+    assert (Hr : passes_total ev ps r f) by (intros w Hw; apply H; right; exact Hw).
+    destruct (f v); cbn [List.length].
+    + change (agg_step ev "int" ACount (VInt a) v) with (ROk (VInt (a + 1))). cbn [rbind].
+      rewrite (IH _ Hr). do 2 f_equal. lia.
+    + rewrite (IH _ Hr). reflexivity.
 Qed.
